@@ -2,24 +2,25 @@
 From Coq Require Import ZArith.
 Open Scope Z_scope.
 
-Definition add_native : option Z := Some 1.
+Definition add_native : option Z := Some 0.
 Definition d128_max_precision : option Z := Some 38.
 Definition d64_max_precision : option Z := Some 18.
-Definition dec_add_native : option Z := Some 1.
-Definition dec_add_validates : option Z := Some 0.
-Definition dec_mul_native : option Z := Some 1.
-Definition dec_mul_validates : option Z := Some 0.
-Definition dec_sub_native : option Z := Some 1.
-Definition dec_sub_validates : option Z := Some 0.
+Definition dec_add_native : option Z := Some 0.
+Definition dec_add_validates : option Z := Some 1.
+Definition dec_mul_native : option Z := Some 0.
+Definition dec_mul_validates : option Z := Some 1.
+Definition dec_sub_native : option Z := Some 0.
+Definition dec_sub_validates : option Z := Some 1.
 Definition decimal_to_decimal_validates : option Z := Some 1.
-Definition div_native : option Z := Some 1.
+Definition div_native : option Z := Some 0.
 Definition int16_dec_precision : option Z := Some 5.
 Definition int32_dec_precision : option Z := Some 10.
 Definition int64_dec_precision : option Z := Some 19.
 Definition int8_dec_precision : option Z := Some 3.
 Definition int_to_decimal_pow_i32 : option Z := Some 0.
-Definition mul_native : option Z := Some 1.
-Definition neg_native : option Z := Some 1.
-Definition rem_native : option Z := Some 1.
-Definition sub_native : option Z := Some 1.
+Definition mul_native : option Z := Some 0.
+Definition neg_native : option Z := Some 0.
+Definition rem_checked_min_neg1_is_zero : option Z := Some 1.
+Definition rem_native : option Z := Some 0.
+Definition sub_native : option Z := Some 0.
 Definition sum_resets_on_overflow : option Z := Some 0.
